@@ -5,6 +5,7 @@ from ..runner import Prop, Group
 from . import gs_common as G
 
 class C02(Prop):
+    layouts = True
     pid = "C02"
     sources = ["socialchoicekit/deterministic_matching.py"]
     groups = {"gs": Group("gs", "From SCK Require Import Argsort RunGS.", "RunGS.gs_case", "RunGS.chk_gs")}
